@@ -27,6 +27,13 @@ func (r *recProto) Info() mangos.ProtocolInfo {
 func (r *recProto) AddPipe(p mangos.ProtocolPipe) error {
 	n := r.nAdd
 	r.nAdd++
+	if r.closed {
+		// as every protocol of the library does once it has been closed
+		if r.onRefuse != nil {
+			r.onRefuse(p)
+		}
+		return mangos.ErrClosed
+	}
 	if r.refuse != nil && r.refuse(n) {
 		verif.Observe("proto refuses pipe")
 		if r.onRefuse != nil {
